@@ -128,29 +128,6 @@ Proof.
     apply str_suffix_len in E. apply Nat.leb_le. exact E.
 Qed.
 
-(* T2 *)
-Lemma tie_cleanup : forall n,
-  is_round_file n = existsb (fun g => glob_match g n) GMr.cleanup_globs.
-Proof.
-  intros n. unfold is_round_file, GMr.cleanup_globs. cbn [existsb].
-  rewrite glob_round_npy, glob_round_pkl.
-  rewrite (has_suffix_str_suffix ".npy" n), (has_suffix_str_suffix ".pkl" n).
-  destruct (String.prefix "round-" n), (str_suffix ".npy" n), (str_suffix ".pkl" n); reflexivity.
-Qed.
-
-(* T1 *)
-Lemma tie_purge : forall n,
-  is_purged n = (existsb (fun g => glob_match g n) GMr.purge_globs
-                 || existsb (String.eqb n) GMr.purge_names)%bool.
-Proof.
-  intros n. unfold is_purged. rewrite tie_cleanup.
-  unfold GMr.cleanup_globs, GMr.purge_globs, GMr.purge_names. cbn [existsb].
-  rewrite glob_pkl_tmp, (has_suffix_str_suffix ".pkl.tmp" n).
-  destruct (glob_match "round-*.npy" n), (glob_match "round-*.pkl" n),
-    (str_suffix ".pkl.tmp" n), (String.eqb n "clusters.pkl"),
-    (String.eqb n "cluster-centroids-packed.pkl"), (String.eqb n "bitbirch.pkl"); reflexivity.
-Qed.
-
 (* ---- the per-round globs ---- *)
 Lemma split_star_app a b : has_char "*" a = false ->
   split_star (a ++ b)%string =
@@ -202,29 +179,3 @@ Proof.
   apply (tie_prev_glob "-idx" ".pkl" "s" r n Hr); reflexivity.
 Qed.
 
-(* ------------------------------------------------------------------------------------------
-   The publication plan of the final round (Gen/GMr.final_publish, regenerated from
-   _FinalTreeMergingRound.__call__): every write goes to a "*.pkl.tmp" name (purged by the next
-   run), the names that become visible are exactly the writes of the model's final task, in the
-   same order, and the LAST action is the rename onto clusters.pkl.
-   ------------------------------------------------------------------------------------------ *)
-Definition pub_dsts (l : list GMr.pub_action) : list string :=
-  flat_map (fun a => match a with GMr.PR _ d => [d] | GMr.PW _ => [] end) l.
-Definition pub_ok (l : list GMr.pub_action) : bool :=
-  forallb (fun a => match a with
-                    | GMr.PW n => str_suffix ".pkl.tmp" n
-                    | GMr.PR s d => str_suffix ".pkl.tmp" s && existsb (fun b => match b with GMr.PW n => String.eqb n s | _ => false end) l
-                    end) l
-  && match rev l with GMr.PR _ d :: _ => String.eqb d "clusters.pkl" | _ => false end.
-
-Lemma tie_publish_ok : forall sc, pub_ok (GMr.final_publish sc) = true.
-Proof. intros [|]; vm_compute; reflexivity. Qed.
-
-Lemma tie_publish_names fexp c pairs ws :
-  final_task fexp c pairs = Some ws -> map fst ws = pub_dsts (GMr.final_publish (m_save_centroids c)).
-Proof.
-  unfold final_task. destruct (tree_cfg fexp c _) as [cf|]; [|discriminate].
-  destruct (fit_pairs fexp (init cf) pairs) as [st []]; try discriminate.
-  destruct (is_init st); [|discriminate].
-  destruct (m_save_centroids c); intros H; injection H as <-; reflexivity.
-Qed.
